@@ -140,10 +140,10 @@ NSHARDS = 16
 
 
 def shards(tier, seed):
-    out = [{"name": f"enum{i}", "kind": "enum", "i": i, "bound": 5 if tier == "quick" else 6, "per": 4 if tier == "quick" else 12,
-            "budget_s": 200 if tier == "quick" else 2400} for i in range(NSHARDS)]
-    out += [{"name": f"rand{i}", "kind": "rand", "i": i, "count": 40 if tier == "quick" else 250, "per": 6 if tier == "quick" else 216,
-             "budget_s": 150 if tier == "quick" else 2400} for i in range(NSHARDS)]
+    out = [{"name": f"enum{i}", "kind": "enum", "i": i, "bound": 5 if tier == "quick" else 6, "per": 4 if tier == "quick" else 24,
+            "budget_s": 200 if tier == "quick" else 3600} for i in range(NSHARDS)]
+    out += [{"name": f"rand{i}", "kind": "rand", "i": i, "count": 40 if tier == "quick" else 1000, "per": 6 if tier == "quick" else 216,
+             "budget_s": 150 if tier == "quick" else 3600} for i in range(NSHARDS)]
     return out
 
 
